@@ -172,6 +172,8 @@ class FileScanHelper:
             self.__handle_scan_error(
                 next_file_name, this_exception, allow_shortcut=True
             )
+        except UnicodeDecodeError as this_exception:
+            self.__handle_scan_error(next_file_name, this_exception)
         return False
 
     def __scan_file(
@@ -260,6 +262,8 @@ class FileScanHelper:
             if not self.__continue_on_error:
                 raise
             self.__handle_scan_error(next_file, this_exception, allow_shortcut=True)
+        except UnicodeDecodeError as this_exception:
+            self.__handle_scan_error(next_file, this_exception)
         return did_fix_file, did_succeed
 
     # pylint: enable=too-many-arguments
